@@ -46,7 +46,7 @@ impl Ctx {
         let used = self.per_op.entry(op).or_insert(0);
         // (a rANS table case costs ~0.5 s of coqc: two 256-entry lists and the three normalisation passes)
         let limit = match op {
-            0 | 1 => self.coq_budget * 3 / 15, 5 => self.coq_budget * 2 / 15, 4 => self.coq_budget / 12, 2 => self.coq_budget / 25,
+            0 | 1 => self.coq_budget / 6, 5 => self.coq_budget * 2 / 15, 4 => self.coq_budget / 12, 2 => self.coq_budget / 25,
             // extension ops: compressor frames (a rANS case normalises a table: ~0.5 s), front-end automata, PA-Zip compress, SIMD LZ77 tokens
             10 | 11 => self.coq_budget / 60, 12 => self.coq_budget / 100, 13..=17 => self.coq_budget / 40,
             20..=29 => self.coq_budget / 25, 30..=39 => self.coq_budget / 20, 40..=49 => self.coq_budget / 25,
@@ -344,7 +344,7 @@ fn factory_case(cx: &mut Ctx, ai: usize, x: &[u8], train: &[u8]) {
     let (alg, name) = ALGS[ai % ALGS.len()];
     let cell = format!("factory/{}", name);
     // the header layouts of the three trained compressors are modelled (coq/C02/ModelComp.v) and tied by x::comp_tie
-    let modelled = matches!(alg, Algorithm::Huffman | Algorithm::Rans | Algorithm::Dictionary);
+    let modelled = matches!(alg, Algorithm::Huffman | Algorithm::Rans | Algorithm::Dictionary | Algorithm::Hybrid);
     cx.sum.cell_status(&cell, if modelled { "M+S" } else { "S-only" });
     let cj = json!({"cell": "factory", "alg": ai, "data": x, "train": train});
     cx.sum.eval(&cell, &format!("f {} {:?} {:?}", ai, x, train), x.len() >= 2);
@@ -787,7 +787,7 @@ fn rand_legacy_stream(r: &mut Rng) -> Vec<u8> {
 
 fn simd_lz77_case(cx: &mut Ctx, x: &[u8]) {
     let cell = "simd_lz77/inherent";
-    cx.sum.cell_status(cell, "S-only");
+    cx.sum.cell_status(cell, "M+S");
     let cj = json!({"cell": cell, "data": x});
     cx.sum.eval(cell, &format!("sl {:?}", x), x.len() >= 2);
     let class = if !x.is_empty() { Some("simd_lz77_literals_not_stored") } else { None };
@@ -846,6 +846,11 @@ fn run_one(cx: &mut Ctx, c: &Value) {
             let ops: Vec<(u64, u64, Vec<u8>)> = c["ops"].as_array().map(|a| a.iter().map(|s| (s[0].as_u64().unwrap_or(0), s[1].as_u64().unwrap_or(0), bytes_of(&s[2]))).collect()).unwrap_or_default();
             x::ad_tie(cx, c["min_ops"].as_u64().unwrap_or(50) as usize, c["interval"].as_u64().unwrap_or(3) as usize, c["aggressive"].as_bool().unwrap_or(false), c["window"].as_u64().unwrap_or(16) as usize, &ops)
         }
+        "pazip/compress_loop" => {
+            let ops: Vec<Vec<u64>> = c["ops"].as_array().map(|a| a.iter().map(|o| o.as_array().map(|v| v.iter().map(|x| x.as_u64().unwrap_or(0)).collect()).unwrap_or_default()).collect()).unwrap_or_default();
+            x::pazip_sim_case(cx, c["period"].as_u64().unwrap_or(1) as usize, c["seed"].as_u64().unwrap_or(0), c["dict_big"].as_bool().unwrap_or(false), &ops, true)
+        }
+        "simd_tie" => x::simd_tie_bytes(cx, &bytes_of(&c["data"]), true),
         "big" => x::big_case(cx, c["front"].as_u64().unwrap_or(0), c["sel"].as_u64().unwrap_or(0) as usize, c["kind"].as_u64().unwrap_or(0), c["n"].as_u64().unwrap_or(0) as usize),
         "realtime_batch" => x::realtime_batch_case(cx, c["mode"].as_u64().unwrap_or(0) as usize, c["fallback"].as_bool().unwrap_or(true), c["item_len"].as_u64().unwrap_or(0) as usize, c["n_big"].as_u64().unwrap_or(0) as usize, c["seed"].as_u64().unwrap_or(0)),
         "pazip/legacy_decode_raw" => legacy_raw(cx, &bytes_of(&c["data"])),
@@ -1106,6 +1111,7 @@ pub fn run(args: &Args) {
             legacy_records_case(&mut cx, p, seed, &ops);
         }
     }
+    x::run_pazip_sim(&mut cx, th);
     for _ in 0..(if th { 1500 } else { 150 }) {
         let mut r = cx.rng.clone();
         let st = rand_legacy_stream(&mut r);
@@ -1137,6 +1143,7 @@ pub fn run(args: &Args) {
         cx.rng = r;
         simd_lz77_case(&mut cx, &x);
     }
+    x::run_simd_ties(&mut cx, th);
     cx.sum.dist_max("coq_cases", cx.shards.len() as u64);
     let sh = cx.shards.write(&args.out);
     cx.sum.write(&args.out, sh);
